@@ -308,6 +308,75 @@ func runC06Poll(c *Ctx) {
 	}
 }
 
+// c06ConcurrentConnects: several goroutines call Connect on the same unconnected client at the same moment (a reconnect
+// timer and a DISCONNECTED handler, say). One of them establishes the connection; for the others the client is
+// connected (or becoming so) and they are refused: one dial, one REGISTER, one working connection, one DISCONNECTED.
+func c06ConcurrentConnects(c *Ctx, idx int, r interface{ Intn(int) int }) {
+	lg := rig.NewLog()
+	s := NewSession(SessionOpts{Tracking: r.Intn(2) == 0, CtxAware: r.Intn(2) == 0, Flood: true, Log: lg})
+	defer s.Release()
+	var regs, discs int64
+	s.Conn.HandleFunc(client.REGISTER, func(_ *client.Conn, l *client.Line) { atomic.AddInt64(&regs, 1) })
+	s.Conn.HandleFunc(client.DISCONNECTED, func(_ *client.Conn, l *client.Line) { atomic.AddInt64(&discs, 1) })
+	// a dial that takes a moment widens the window in which the callers overlap
+	s.EP.Prepare(func(mc *rig.MemConn) {
+		for k := 0; k < r.Intn(50); k++ {
+			runtime.Gosched()
+		}
+	})
+	n := 2 + r.Intn(4)
+	var okN, errN int64
+	start := make(chan struct{})
+	var wg sync.WaitGroup
+	for g := 0; g < n; g++ {
+		wg.Add(1)
+		go func() {
+			defer wg.Done()
+			<-start
+			if err := s.Conn.Connect(); err == nil {
+				atomic.AddInt64(&okN, 1)
+			} else {
+				atomic.AddInt64(&errN, 1)
+			}
+		}()
+	}
+	close(start)
+	done := make(chan struct{})
+	go func() { wg.Wait(); close(done) }()
+	if !waitCh(done) {
+		ds := rig.ProveDead(WaitShort)
+		if ds.Dead {
+			c.R.Violate(rig.Violation{Sig: "c06|concurrent-connects-stuck|" + ds.Signature, Detail: fmt.Sprintf("%d simultaneous Connect calls never all returned: %s", n, ds.Signature), Case: Case("fail", idx)})
+		} else {
+			c.R.Inconcl(fmt.Sprintf("%s: simultaneous Connect calls did not return (%s)", Case("fail", idx), ds.Reason))
+		}
+		return
+	}
+	c.R.Eval(1)
+	viol := func(kind, detail string) {
+		c.R.Violate(rig.Violation{Sig: "c06|concurrent-connects-" + kind, Detail: fmt.Sprintf("%d simultaneous Connect calls on an unconnected client: %s", n, detail), Case: Case("fail", idx)})
+	}
+	dials := len(s.EP.Dials())
+	if okN != 1 || dials != 1 {
+		viol("accepted", fmt.Sprintf("%d returned nil, %d were refused, the server was dialled %d times (want exactly one connection)", okN, errN, dials))
+	}
+	if rg := atomic.LoadInt64(&regs); rg != okN {
+		viol("register-count", fmt.Sprintf("%d Connect calls succeeded, REGISTER fired %d times", okN, rg))
+	}
+	if okN >= 1 {
+		mc := s.EP.Last()
+		if dials == 1 && (!AwaitRegistration(mc) || !s.WireMarker(mc)) {
+			viol("unusable", "the connection that was established does not answer a PING")
+		}
+		CloseWatched(s.Conn)
+		rig.WaitNoLib(WaitShort, 400)
+		if dc := atomic.LoadInt64(&discs); dc != int64(dials) {
+			viol("disconnected-count", fmt.Sprintf("%d connections were established and closed, DISCONNECTED fired %d times", dials, dc))
+		}
+	}
+	c.R.Class(fmt.Sprintf("failure|concurrent-connects|n=%d", n))
+}
+
 // c06CancelMidHandshake: the connect context ends while the TLS handshake (which does not look at it) is still under
 // way; the server then completes the handshake. Whatever Connect returns, the lifecycle events agree with it: a Connect
 // that returns nil has dispatched REGISTER once and the connection (ended by the cancellation) gets its one
@@ -382,8 +451,12 @@ func runC06Failures(c *Ctx) {
 			continue
 		}
 		r := rig.Rand(c.Seed, "C06fail", idx)
-		kind := []string{"noserver", "refused", "refused-then-ok", "bad-proxy", "tls-handshake-fails", "tls-then-ok", "tls-cancel-mid-handshake"}[idx%7]
+		kind := []string{"noserver", "refused", "refused-then-ok", "bad-proxy", "tls-handshake-fails", "tls-then-ok", "tls-cancel-mid-handshake", "concurrent-connects"}[idx%8]
 		c.J.Log("CASE %s %s", Case("fail", idx), kind)
+		if kind == "concurrent-connects" {
+			c06ConcurrentConnects(c, idx, r)
+			continue
+		}
 		if kind == "tls-cancel-mid-handshake" {
 			c06CancelMidHandshake(c, idx, r)
 			continue
